@@ -26,11 +26,11 @@ ASSUMPTIONS = ['rows_ok: row ids inside record sets handed to RefList/Attachment
 TECHNIQUE = 'Coq proof over a hand-written executable model of usertypes.py + differential cases (vm_compute) + impl oracle'
 LEVEL_TEXT = ('Kernel-checked theorems about the model of convert/do_convert/is_right_type of all 16 type classes over the whole '
               'value universe V and arbitrary library oracles: conversion never escapes and yields a right-type value, the '
-              'unchanged error or a text for every type but Blob; a second conversion returns the same value whenever the first '
+              'unchanged error or a text for every type; a second conversion returns the same value whenever the first '
               'result is not a text produced by the str() fallback of a non-text value that the type parses again, not an empty '
               'sequence and not a RecordList; each excluded case is refuted by a concrete witness replayed on the implementation.')
 LEVEL_NOTE = ('Model hand-written, tied by differential cases on every run. Oracles for C/third-party library functions. '
-              'Findings on the unchanged tree: Blob.convert is the identity; alt text of non-text values can be parsed on a '
+              'Blob.convert was the identity (fixed in /repo f9e437d, kept as a regression witness). Open findings: alt text of non-text values can be parsed on a '
               'second conversion (AltText, opaque objects, ints >= 2^1024 in Numeric); empty results ((), RecordList([]), []) '
               'become None and RecordList becomes list on a second RefList/ChoiceList conversion.')
 
@@ -194,8 +194,8 @@ def monitors(ctx):
 def correspond(ctx):
   core.setup_impl_path()
   monitors(ctx)
-  cs = gen_cases(ctx)
-  ctx._c22_cases = cs
+  cs = [(make_type(w), pv.from_expr(w['expr'])) for w in CORPUS] + gen_cases(ctx)
+  ctx._c22_cases = cs[len(CORPUS):]
   coq, meta = [], []
   seen = set()
   work = list(cs)
@@ -232,9 +232,20 @@ def correspond(ctx):
   ctx.extra['cases_in_coq'] = len(coq)
 
 
+# witnesses of every finding of this property, open or fixed: tried first on every run
+CORPUS = [
+  {'type': 'Blob', 'expr': '5'}, {'type': 'Blob', 'expr': "record('T', 1)"}, {'type': 'Blob', 'expr': "'text'"},
+  {'type': 'Date', 'expr': "objtypes.AltText('2020-01-01')"}, {'type': 'ChoiceList', 'expr': "objtypes.AltText('[\"a\"]')"},
+  {'type': 'Numeric', 'expr': '10 ** 400'}, {'type': 'Int', 'expr': "ValueError('5')"},
+  {'type': 'ReferenceList', 'table': 'T', 'expr': "recordset('T', [1, 2])"},
+  {'type': 'ReferenceList', 'table': 'T', 'expr': "recordset('T', [])"}, {'type': 'ChoiceList', 'expr': "'[]'"},
+]
+
+
 def search(ctx):
   core.setup_impl_path()
-  cs = getattr(ctx, '_c22_cases', None) or gen_cases(ctx)
+  corpus = [(make_type(w), pv.from_expr(w['expr'])) for w in CORPUS]
+  cs = corpus + list(getattr(ctx, '_c22_cases', None) or gen_cases(ctx))
   found = {}
   for T, v in cs:
     r = classify(T, v)
@@ -259,6 +270,7 @@ def witness(T, v):
 
 def make_type(w):
   import usertypes as u
+  core.setup_impl_path()
   n = w['type']
   if n == 'DateTime':
     T = u.DateTime(w.get('zone', 'UTC'))
